@@ -365,6 +365,111 @@ def big_maps(out, tier, seed, model_ok):
         check_big(out, c, m)
 
 
+# ---------------------------------------------------------------------------
+# ONE conversion that reads TWO style maps (style_map= and the embedded part) over documents whose reading and conversion warn too
+# ---------------------------------------------------------------------------
+
+BOTH_PROFILE = dict(style_map=0.9, p_embedded_map=0.9, p_note=0.5, p_comment=0.15, p_unknown=0.5, p_dangling_style=0.4, p_pstyle=0.6, p_rstyle=0.4,
+                    p_table=0.2, p_image=0.0, hostile=0.1, optional_absent=0.05)
+BAD_LINES = ["!!!!", "????", "p => => p", "r[style-name='x' => em", "p.Alpha =>> h1", "=> h1", "p[style-name='a'] => h1:fresh:fresh", "p =>h1 >", "table.T => table:",
+             "p:ordered-list(x) => ol", "\u2260 p => h1", "r.Code => code.", "p.A = > h1", "b => strong]", "'", "\\"]
+OPTION_KW = {"includeDefault": "include_default_style_map", "includeEmbedded": "include_embedded_style_map", "idPrefix": "id_prefix", "ignoreEmpty": "ignore_empty_paragraphs"}
+
+
+def both_cases(seed, n):
+    """whole-API cases (generated packages with notes, comments, unknown elements, undefined and unmapped styles in body AND notes) in
+    which the explicit and the embedded style map SHARE ill-formed lines: the same line (in its own white space, once or several times)
+    at random places of both texts, next to lines only one of them has and to the well-formed lines about the document's styles"""
+    import apicheck as A
+    cs = A.gen_cases(seed, n, BOTH_PROFILE, sm=dict(junk=0.25), tag="c07-both-")
+    rng = random.Random(seed * 7919 + 707)
+    for c in cs:
+        opts = c["options"]
+        opts.pop("format", None)
+        idx = next((i for i, p in enumerate(c["parts"]) if p["name"] == "mammoth/style-map"), None)
+        texts = [opts.get("styleMap"), bytes.fromhex(c["parts"][idx]["hex"]).decode("utf-8") if idx is not None else None]
+        shared = []
+        if rng.random() < 0.85:
+            lines = [t.split("\n") if t else [] for t in texts]
+            for _ in range(rng.choice([1, 1, 2, 3])):
+                r = rng.random()
+                b = (rng.choice(BAD_LINES) if r < 0.4 else GS.junk_line(rng, 10) if r < 0.7 else GS.mutate(rng, GS.print_mapping(GS.gen_mapping(rng, None, 0.2), rng))).strip()
+                if not b or "\n" in b:
+                    continue
+                shared.append(b)
+                for ls in lines if rng.random() < 0.85 else [rng.choice(lines)]:
+                    for _k in range(rng.choice([1, 1, 1, 2])):
+                        ls.insert(rng.randint(0, len(ls)), GS.ws(rng) + b + GS.ws(rng))
+            texts = ["\n".join(ls) for ls in lines]
+            opts["styleMap"] = texts[0]
+            part = {"name": "mammoth/style-map", "hex": texts[1].encode("utf-8").hex()}
+            if idx is None:
+                c["parts"].append(part)
+            else:
+                c["parts"][idx] = part
+        c["texts"], c["shared"] = texts, shared
+    return cs
+
+
+def ordered_unique(xs):
+    return list(dict.fromkeys(xs))
+
+
+def check_both(out, case, model, worker=None):
+    """one conversion with style_map= AND an embedded style map: no exception; every message once; the warnings about style-map lines are
+    those of the explicit map followed by the new ones of the embedded map (each map read on its own by the same reader), a line both maps
+    hold reported once; the whole (value, messages) is the model's.  Returns False when the library did not answer (stop exploring)."""
+    worker = worker or WORKER
+    opts, texts = case["options"], case["texts"]
+    payload = {"kind": "stylemap-both", "parts": case["parts"], "options": opts, "texts": texts}
+    req = {"op": "api", "mode": "both" if opts.get("styleMap") is not None else "embedded", "text": opts.get("styleMap"),
+           "docx": D.build_docx(case["parts"]).hex(), "kw": {OPTION_KW[k]: v for k, v in opts.items() if k in OPTION_KW}}
+    try:
+        r = worker.call(req, 30.0)
+        alone = [worker.call({"op": "read", "text": t}, 10.0)["messages"] if t else [] for t in texts]
+    except Hang:
+        out.violation("a conversion with an explicit and an embedded style map did not finish within 30 s", payload)
+        return False
+    if opts.get("includeEmbedded") is False:
+        alone[1] = []
+    want = ordered_unique(alone[0] + alone[1])
+    out.count(key=case["key"], nontrivial=bool(set(alone[0]) & set(alone[1])))
+    if "err" in r:
+        if not (model is not None and "err" in model):
+            out.violation("a conversion with an explicit and an embedded style map raised %s" % r["err"], payload, actual=r.get("text"))
+        return True
+    probs = []
+    msgs = r["messages"]
+    dup = [m for m in ordered_unique(msgs) if msgs.count(m) > 1]
+    if dup:
+        probs.append("%d identical messages are reported more than once by one conversion, e.g. %d times %r" % (len(dup), msgs.count(dup[0]), dup[0][:120]))
+    got = [m for m in msgs if m.startswith(WARN_PREFIX)]
+    if got != want:
+        probs.append("the warnings about style-map lines are %r; the explicit map read alone warns %r, the embedded one %r (a line of both is one warning)" % (
+            [m[len(WARN_PREFIX):][:60] for m in got[:8]], [m[len(WARN_PREFIX):][:60] for m in alone[0][:6]], [m[len(WARN_PREFIX):][:60] for m in alone[1][:6]]))
+    if model is not None and "error" not in model:
+        if "err" in model:
+            probs.append("the model (= the code as read) raises %s here but the library returned normally" % model["err"])
+        elif model.get("messages") != msgs:
+            probs.append("the message list differs from the specification's: %r, expected %r" % (msgs[:8], model.get("messages", [])[:8]))
+        elif model.get("value") != r["value"]:
+            probs.append("the value differs from the specification's")
+    if probs:
+        out.violation("one conversion, two style maps: " + "; ".join(probs[:2])[:1400], payload, expected={"style_map_warnings": want, "model": None if model is None else model.get("messages")}, actual=msgs)
+    return True
+
+
+def both_maps(out, tier, seed, model_ok):
+    cases = both_cases(seed, common.deepen(250 if tier == "quick" else 4000))
+    models = run_driver([{"op": "api", "parts": c["parts"], "options": c["options"], "base": None, "world": []} for c in cases], tag="both") if model_ok else [None] * len(cases)
+    ft = out.extra.setdefault("c07_both_maps", {"cases": 0, "with_shared_lines": 0})
+    for c, m in zip(cases, models):
+        ft["cases"] += 1
+        ft["with_shared_lines"] += bool(c["shared"])
+        if not check_both(out, c, m):
+            break
+
+
 def run(out, tier, seed, model_ok):
     rng = random.Random(seed * 7919 + 7)
     n = common.deepen(3000 if tier == "quick" else 40000)
@@ -440,6 +545,8 @@ def run(out, tier, seed, model_ok):
     if not hangs:
         big_maps(out, tier, seed, model_ok)
     if not hangs:
+        both_maps(out, tier, seed, model_ok)
+    if not hangs:
         timing_ok(out, tier)
     WORKER.close()
     regex_tie(out, seed, model_ok)
@@ -451,6 +558,9 @@ def run(out, tier, seed, model_ok):
                 "document: the embedded part is read back as the same string, both conversions agree, the value shows exactly the first matching lines, the warnings are the "
                 "malformed lines in order and equal the model's; the regexes of Generated.lean (token rules, instruction-text regexes) run by the Lean backtracking matcher give the "
                 "same match end as CPython's re on pumped and random strings, and its \\s / \\d tables are CPython's at every boundary; non-trivial = both a mapping and a warning present" % ("10^4" if tier == "quick" else "10^5"))
+    out.rule += ("; generated packages (notes, comments, unknown elements, undefined and unmapped styles in body and notes) converted ONCE with style_map= AND an embedded "
+                 "style map that share ill-formed lines (in their own white space, repeated, at random places) next to lines of their own: no exception, every message once, the "
+                 "style-map warnings are those of the explicit map read alone followed by the new ones of the embedded map read alone, the whole (value, messages) equals the model's")
     out.sample(texts[0][:300])
     out.sample(texts[1][:300])
 
@@ -464,6 +574,14 @@ def replay(out, payload, model_ok):
         try:
             m = run_driver([{"op": "stylemap", "text": big_style_map(case["seed"], case["index"], case["target"])[0]}], tag="big")[0] if model_ok else None
             check_big(out, case, m)
+        finally:
+            WORKER.close()
+        return
+    if case.get("kind") == "stylemap-both":
+        out.rule = "replay"
+        try:
+            m = run_driver([{"op": "api", "parts": case["parts"], "options": case["options"], "base": None, "world": []}], tag="both")[0] if model_ok else None
+            check_both(out, dict(case, key="replay"), m)
         finally:
             WORKER.close()
         return
